@@ -796,7 +796,7 @@ def pretty_call(ctx, fn, *args, **kwargs):
     return pretty_call_alt(ctx, fn, args, kwargs)
 
 
-def pretty_call_alt(ctx, fn, args=(), kwargs=()):
+def pretty_call_alt(ctx, fn, args=(), kwargs=(), trailing_comment=None):
     """Returns a Doc that represents a function call to :keyword:`fn` with
     the ``args`` and ``kwargs``.
 
@@ -826,6 +826,8 @@ def pretty_call_alt(ctx, fn, args=(), kwargs=()):
                    of ``OrderedDict``, or an iterable of two-tuples, where the
                    first element is a `str` (key), and the second is the Python
                    value for that keyword argument.
+    :param trailing_comment: text of a comment to render after the last
+                             argument, if any.
     :returns: :class:`~prettyprinter.doc.Doc`
     """
 
@@ -834,7 +836,7 @@ def pretty_call_alt(ctx, fn, args=(), kwargs=()):
     if ctx.depth_left <= 0:
         return concat([fndoc, LPAREN, ELLIPSIS, RPAREN])
 
-    if not kwargs and len(args) == 1:
+    if not kwargs and len(args) == 1 and not trailing_comment:
         sole_arg = args[0]
         unwrapped_sole_arg, _comment, _trailing_comment = unwrap_comments(args[0])
         if type(unwrapped_sole_arg) in (list, dict, tuple):
@@ -878,6 +880,7 @@ def pretty_call_alt(ctx, fn, args=(), kwargs=()):
             (kwarg, pretty_python_value(v, nested_ctx))
             for kwarg, v in kwargitems
         ),
+        trailing_comment=trailing_comment,
     )
 
 
@@ -1138,7 +1141,12 @@ def _is_cnamedtuple(value):
 def pretty_namedtuple(value, ctx, trailing_comment=None):
     constructor = type(value)
     kwargs = zip(constructor._fields, value)
-    return pretty_call_alt(ctx, constructor, kwargs=kwargs)
+    return pretty_call_alt(
+        ctx,
+        constructor,
+        kwargs=kwargs,
+        trailing_comment=trailing_comment
+    )
 
 
 # Given a cnamedtuple value, returns a tuple
@@ -1195,7 +1203,8 @@ def pretty_cnamedtuple(value, ctx, trailing_comment=None):
                 comment(val, fieldname)
                 for val, fieldname in zip(value, fieldnames)
             )
-        ])
+        ]),
+        trailing_comment=trailing_comment
     )
 
 
@@ -1209,7 +1218,8 @@ def pretty_simplenamespace(value, ctx, trailing_comment=None):
         kwargs=[
             (k, value.__dict__[k])
             for k in sorted(value.__dict__)
-        ]
+        ],
+        trailing_comment=trailing_comment
     )
 
 
